@@ -1,12 +1,14 @@
 import TinsModel.Tcp.Spec
 import TinsModel.Tcp.Flow
 import TinsModel.Tcp.Legacy
+import Driver.C06Sessions
 import Driver.Util
 /- line-protocol driver for C06: model mode and spec (oracle) mode.
    Three op families, one per harness:
      init/seg/adv                         DataTracker            (harness/c06_tracker.cpp)
      finit/fseg/fsegp/fbare/fadv/fignore  Flow::process_packet   (harness/c06_flow.cpp)
-     linit/lseg/lsegp/lbare               legacy TCPStreamFollower (harness/c06_legacy.cpp) -/
+     linit/lseg/lsegp/lbare               legacy TCPStreamFollower (harness/c06_legacy.cpp)
+     minit/mconn/mpkt/mpktp               its session table, any number of connections (Driver/C06Sessions.lean) -/
 namespace Driver.C06
 open Tins Tins.DT Driver
 
@@ -15,19 +17,10 @@ structure MState where
   flow : Flow := Flow.init 0
   lc : LStream := LStream.init 0
   ls : LStream := LStream.init 0
-
-/-- `<key>:<hex>` for chunks of at most 32 bytes, `<key>:#<len>.<fnv64>` for longer ones (harness/c06_show.h) -/
-def showChunk (c : Nat × Bytes) : String :=
-  if c.2.length ≤ 32 then s!"{c.1}:{toHex c.2}" else s!"{c.1}:#{c.2.length}.{fnv c.2}"
-
-def showChunks (m : Chunks) : String :=
-  joinWith "," ((sortByKey m).map showChunk)
+  fol : LFollower := {}
 
 def showState (r : String) (t : Tracker) : String :=
   s!"{r} seq={t.seq} total={t.total} plen={t.payload.length} ph={fnv t.payload} buf={showChunks t.buf}"
-
-def showDir (t : LStream) : String :=
-  s!"{t.seq}/{t.payload.length}/{fnv t.payload}/{showChunks t.frags}"
 
 def showLegacy (r : Bool) (st : MState) : String :=
   s!"r={if r then 1 else 0} end=0 c={showDir st.lc} s={showDir st.ls}"
@@ -36,6 +29,9 @@ def showFlow (ev : FlowEvents) (f : Flow) : String :=
   showState s!"{if ev.data then "r=1" else "r=0"} ooo={if ev.outOfOrder then 1 else 0}" f.tracker
 
 def step (st : MState) (line : String) : MState × String :=
+  match stepSessions st.fol (words line) with
+  | some (f, out) => ({ st with fol := f }, out)
+  | none =>
   match words line with
   | "init" :: n :: _ => match n.toNat? with
     | some k => let t' := Tracker.init k; ({ st with t := t' }, showState "init" t')
@@ -112,42 +108,7 @@ structure OState where
   /-- `frontier h s.length`, followed incrementally (`frontier_cons_advance` in TinsModel/Tcp/LemmasRefine.lean) -/
   k : Nat := 0
   unspecified : Bool := true
-
-def kv (ws : List String) (key : String) : Option String :=
-  ws.findSome? (fun w => if w.startsWith (key ++ "=") then some ((w.drop (key.length + 1)).toString) else none)
-
-/-- a buffered chunk as printed by a harness: its bytes, or (for long chunks) length and FNV-1a 64 -/
-inductive ChunkRepr
-  | data (d : Bytes)
-  | hashed (len : Nat) (h : Nat)
-
-def parseBuf (s : String) : Option (List (Nat × ChunkRepr)) :=
-  if s == "" then some [] else
-  (s.splitOn ",").mapM (fun item => match item.splitOn ":" with
-    | [k, h] => do
-      let k ← k.toNat?
-      if h.startsWith "#" then
-        match ((h.drop 1).toString).splitOn "." with
-        | [l, f] => do let l ← l.toNat?; let f ← f.toNat?; pure (k, ChunkRepr.hashed l f)
-        | _ => none
-      else do let d ← parseHex h; pure (k, ChunkRepr.data d)
-    | _ => none)
-
-/-- A hashed chunk is turned back into bytes for `specOKat`: the slice of the stream it must equal if length and
-    hash match that slice, otherwise bytes that make the check fail (out of bounds → the length alone fails it;
-    hash mismatch → every byte differs from the slice). -/
-def resolveChunk (s : Bytes) (k seq : Nat) (c : Nat × ChunkRepr) : Nat × Bytes :=
-  match c.2 with
-  | .data d => (c.1, d)
-  | .hashed len h =>
-    let a := k + sub32 c.1 seq
-    let d := (s.drop a).take len
-    if d.length == len && (fnv d).toNat == h then (c.1, d)
-    else if d.length == len then (c.1, d.map (· + 1))
-    else (c.1, List.replicate len 0)
-
-def parseInt (s : String) : Option Int :=
-  if s.startsWith "-" then (s.drop 1).toString.toNat?.map (fun n => - (n : Int)) else s.toNat?.map (fun n => (n : Int))
+  fol : OFol := {}
 
 /-- what one operation means for the spec: a new stream, an arrival, no arrival, or "outside the spec" -/
 inductive OpKind
@@ -208,6 +169,9 @@ def parseSeen (out : String) : Option Seen :=
 def specStep (st : OState) (line : String) : OState × String :=
   match line.splitOn " ||| " with
   | [op, out] =>
+    match specSessions st.fol (words op) out with
+    | some (f, verdict) => ({ st with fol := f }, verdict)
+    | none =>
     let kind := opKind (words op)
     let kOld := st.k
     let st' : OState := match kind with
